@@ -18,19 +18,17 @@ def _nontrivial(req, out):
 CFG = {
     "level": "translation_validation",
     "level_text": "Translation validation with a proved oracle: Lean reference loader `loadRef` + renderer for the generated "
-                  "presentation subset. PROVED for all inputs: UTF-8 byte layer; layer 1 (flow collections + double-quoted "
-                  "scalars/keys; render_load_flow); layer 2 (block mappings/sequences with nesting, indentation steps, compact "
-                  "forms, plain/single/double scalars and keys, every null/bool/int spelling, flow collections as leaves; "
-                  "render_load_block) for a bare single document; layer 3 below the root: literal `|` and folded `>` block scalars "
-                  "(all chomping indicators, content indentation 1-9 with or without indentation indicator, any admissible "
-                  "text, folds at any set of admissible spaces) as values anywhere inside the layer-2 structures; layer 4 inside "
-                  "the document: comment and blank lines before any entry and trailing comments after any entry's value, key or "
-                  "block scalar header (same theorem render_load_block); line-break layer 5 for every stream "
-                  "(render_load_breaks) and combined with layers 1-4. Root-level block scalars (rest of layer 3), filler lines "
-                  "before the first line and a comment on the root node (rest of layer 4), layers 6 (anchors/aliases), "
-                  "7 (markers/multi-document) are `render_load_partial_<layer>`: kernel-evaluated on explicit finite families "
-                  "only; their quantifier is carried by the correspondence (the driver re-evaluates loadRef(render s) = trees on "
-                  "every generated stream). The 7 000-line Rust oracle parser is NOT modelled, only its observable result "
+                  "presentation subset. PROVED for all inputs (render_load_anchor_free): for EVERY admissible stream in which no "
+                  "node carries an anchor and no node is an alias, loadRef(render s) = s.trees - that is the UTF-8 byte layer, "
+                  "layer 1 (flow collections, double-quoted scalars/keys), layer 2 (block mappings/sequences with nesting, "
+                  "indentation steps, compact forms, plain/single/double scalars and keys, every null/bool/int spelling), layer 3 "
+                  "(literal and folded block scalars, every chomping indicator, content indentation 1-9 with or without "
+                  "indicator, folds, at any depth and as a document root), layer 4 (comment lines, blank lines and trailing "
+                  "comments wherever `admissible` allows them), layer 5 (LF/CRLF/CR) and layer 7 (`---`/`...`, any number of "
+                  "documents, root node on the marker line, filler lines between documents). Layer 6 (anchors/aliases) is "
+                  "`render_load_partial_anchors`: kernel-evaluated on an explicit finite family only; its quantifier is carried "
+                  "by the correspondence (the driver re-evaluates loadRef(render s) = trees on every generated stream). "
+                  "The 7 000-line Rust oracle parser is NOT modelled, only its observable result "
                   "(YamlIndex::build + YamlValue traversal + to_json, and `yq -o json`) is tied to loadRef and to the "
                   "generated tree; loadRef is validated as YAML on the in-subset cases of the repository's YAML Test Suite.",
     "level_note": "Trusts Lean kernel, the harness's Rust twin of `render` (checked byte-for-byte against the Lean `render` on "
@@ -41,8 +39,9 @@ CFG = {
     "needs_cli": True,
     "lean_modules": ["SuccinctlyVerif.Props.C14"],
     "required_theorems": ["SV.Props.C14.render_load_flow", "SV.Props.C14.render_load_breaks", "SV.Props.C14.render_load_flow_breaks",
-                          "SV.Props.C14.render_load_block", "SV.Props.C14.render_load_block_breaks"],
-    "lean_files": ["SuccinctlyVerif/Props/C14.lean", "SuccinctlyVerif/Proof/YamlRoundTrip.lean", "SuccinctlyVerif/Proof/YamlRefBlock.lean", "SuccinctlyVerif/Proof/YamlRefBlockScalar.lean", "SuccinctlyVerif/Proof/YamlFamilies.lean",
+                          "SV.Props.C14.render_load_block", "SV.Props.C14.render_load_block_breaks",
+                          "SV.Props.C14.render_load_anchor_free", "SV.Props.C14.render_load_docs"],
+    "lean_files": ["SuccinctlyVerif/Props/C14.lean", "SuccinctlyVerif/Proof/YamlRoundTrip.lean", "SuccinctlyVerif/Proof/YamlRefBlock.lean", "SuccinctlyVerif/Proof/YamlRefBlockScalar.lean", "SuccinctlyVerif/Proof/YamlRefDocs.lean", "SuccinctlyVerif/Proof/YamlFamilies.lean",
                    "SuccinctlyVerif/Spec/YamlRef.lean", "SuccinctlyVerif/Spec/YamlTree.lean",
                    "SuccinctlyVerif/Spec/YamlLoad.lean"],
     "generated": [],
